@@ -84,9 +84,10 @@ theorem readIntList_print (l : List Int) (hl : ∀ x ∈ l, InIntRange x) :
 
 /-! ### `{a, b, c}` of strings -/
 
-/-- a list element that survives printing and re-reading: not empty, no `,` or `}`, no blank or tab in front
-    (blanks at the end are *kept* by the reader, see the finding `keyparser:string-list-trailing-whitespace`) -/
-def CleanElem (e : Str) : Prop := (∀ c ∈ e, isBraceOrComma c = false) ∧ ∃ c t, e = c :: t ∧ isBlank c = false
+/-- a list element that survives printing and re-reading: not empty, no `,` or `}`, no blank or tab at either end
+    (the reader trims both ends, like the scalar string reader) -/
+def CleanElem (e : Str) : Prop :=
+  (∀ c ∈ e, isBraceOrComma c = false) ∧ (∃ c t, e = c :: t ∧ isBlank c = false) ∧ dropEndWhile isBlank e = e
 
 theorem readStringListAux_print (l : List Str) (hl : ∀ e ∈ l, CleanElem e) (hne : l ≠ []) :
     ∀ (fuel : Nat) (ws : Str) (acc : List Str), l.length < fuel → (∀ c ∈ ws, isBlank c = true) →
@@ -98,7 +99,7 @@ theorem readStringListAux_print (l : List Str) (hl : ∀ e ∈ l, CleanElem e) (
     cases fuel with
     | zero => omega
     | succ fuel =>
-      obtain ⟨hx1, c, t, hxe, hcb⟩ := hl x List.mem_cons_self
+      obtain ⟨hx1, ⟨c, t, hxe, hcb⟩, hxt⟩ := hl x List.mem_cons_self
       have hcbr : isBraceOrComma c = false := hx1 c (by rw [hxe]; exact List.mem_cons_self)
       -- skipping of separators and blanks in front of the element
       have skip : ∀ rest : Str, ((ws ++ (x ++ rest)).dropWhile isBraceOrComma).dropWhile isBlank = c :: (t ++ rest) := by
@@ -130,7 +131,7 @@ theorem readStringListAux_print (l : List Str) (hl : ∀ e ∈ l, CleanElem e) (
         simp only
         have := tk '}' [] (by decide)
         rw [this.2]
-        simp only [this.1]
+        simp only [this.1, hxt]
         cases fuel <;> simp [readStringListAux]
       | cons y l'' =>
         have e : intercalateStr sepCS (x :: y :: l'') ++ ['}'] = x ++ (',' :: ([' '] ++ (intercalateStr sepCS (y :: l'') ++ ['}']))) := by
@@ -139,7 +140,7 @@ theorem readStringListAux_print (l : List Str) (hl : ∀ e ∈ l, CleanElem e) (
         simp only
         have := tk ',' ([' '] ++ (intercalateStr sepCS (y :: l'') ++ ['}'])) (by decide)
         rw [this.2]
-        simp only [this.1]
+        simp only [this.1, hxt]
         rw [ih (fun z hz => hl z (List.mem_cons_of_mem _ hz)) (by simp) fuel [' '] (acc ++ [x])
           (by simp at hf ⊢; omega) (by intro d hd; simp at hd; subst hd; rfl)]
         simp
@@ -148,7 +149,7 @@ theorem length_intercalate_ge' (l : List Str) (hl : ∀ e ∈ l, CleanElem e) : 
   induction l with
   | nil => simp [intercalateStr]
   | cons x l' ih =>
-    obtain ⟨_, c, t, hxe, _⟩ := hl x List.mem_cons_self
+    obtain ⟨_, ⟨c, t, hxe, _⟩, _⟩ := hl x List.mem_cons_self
     have hx : 0 < x.length := by rw [hxe]; simp
     have ih' := ih (fun z hz => hl z (List.mem_cons_of_mem _ hz))
     cases l' with
